@@ -44,7 +44,8 @@ def leaves(kind):
     R, I = ln.DataType.REAL, ln.DataType.INT
     if kind == "f":
         return [("a", ln.Symbol("a", R)), ("b", ln.Symbol("b", R)), ("2.5", ln.LiteralFloat(2.5)), ("-2.5", ln.LiteralFloat(-2.5)),
-                ("T[i]", ln.ArrayAccess(ln.Symbol("T", R), (ln.Symbol("i", I),))), ("3", ln.LiteralInt(3)), ("7.0", ln.LiteralFloat(7.0))]
+                ("T[i]", ln.ArrayAccess(ln.Symbol("T", R), (ln.Symbol("i", I),))), ("3", ln.LiteralInt(3)), ("7.0", ln.LiteralFloat(7.0)),
+                ("2j", ln.LiteralFloat(2j)), ("1.5-2j", ln.LiteralFloat(1.5 - 2j))]
     if kind == "b":
         return [("a<b", ln.LT(ln.Symbol("a", R), ln.Symbol("b", R))), ("c>=a", ln.GE(ln.Symbol("c", R), ln.Symbol("a", R)))]
     if kind == "i":
@@ -286,6 +287,16 @@ def fun(env, name, args):
 def z3_of_lnodes(env: ZEnv, n):
     ln = L()
     if isinstance(n, ln.LiteralFloat):
+        if isinstance(n.value, complex):
+            # a complex literal is an opaque atom: what is decided is that the text keeps it one (parenthesisation / precedence).
+            # Python has no complex literal with a real part: `(1.5-2j)` IS the subtraction 1.5 - 2j, so that is its meaning there.
+            re_, im_ = float(n.value.real), float(n.value.imag)
+            if env.lang == "py":
+                zi = env.fvar(f"Z_0.0_{abs(im_)}")
+                if re_ == 0.0 and im_ > 0 and str(re_) == "0.0":
+                    return ("f", zi)
+                return ("f", (z3.fpAdd if im_ >= 0 else z3.fpSub)(RM, fpval(re_), zi))
+            return ("f", env.fvar(f"Z_{re_}_{im_}"))
         return ("f", fpval(n.value))
     if isinstance(n, ln.LiteralInt):
         return ("i", z3.IntVal(int(n.value)))
@@ -324,14 +335,43 @@ def z3_of_lnodes(env: ZEnv, n):
     raise KsymError(f"lnodes {type(n).__name__}")
 
 
+def _num(e):
+    """numeric value of a (possibly negated) literal node, else None"""
+    if e[0] == "num" and not isinstance(e[1], bool):
+        return e[1]
+    if e[0] == "un" and e[1] == "-":
+        v = _num(e[2])
+        return None if v is None else -v
+    return None
+
+
+def _complex_atom(e):
+    """(re, im) if the subtree is the spelling of ONE complex literal: C `re+I*im`, Python `re+imj` / `re-imj`."""
+    if e[0] == "bin" and e[1] in "+-":
+        re_, rhs = _num(e[2]), e[3]
+        if re_ is None or isinstance(re_, complex):
+            return None
+        sgn = 1.0 if e[1] == "+" else -1.0
+        if rhs[0] == "bin" and rhs[1] == "*" and rhs[2] == ("id", "I"):
+            im = _num(rhs[3])
+            if im is not None and not isinstance(im, complex):
+                return float(re_), sgn * float(im)
+    return None
+
+
 def z3_of_ir(env: ZEnv, e):
     k = e[0]
+    ca = _complex_atom(e)
+    if ca is not None:
+        return ("f", env.fvar(f"Z_{ca[0] + 0.0}_{ca[1] + 0.0}"))
     if k == "num":
         v = e[1]
         if isinstance(v, bool):
             return ("b", z3.BoolVal(v))
         if isinstance(v, int):
             return ("i", z3.IntVal(v))
+        if isinstance(v, complex):
+            return ("f", env.fvar(f"Z_{float(v.real)}_{float(v.imag)}"))
         return ("f", fpval(v))
     if k == "id":
         return ("i", env.ivar(e[1])) if e[1] in INT_NAMES else ("f", env.fvar(e[1]))
@@ -379,7 +419,7 @@ def parse_c_expr(text, kind):
     if _CP is None:
         _CP = c_parser.CParser()
     ty = {"f": "double", "b": "_Bool", "i": "int"}[kind]
-    src = f"void k(double a, double b, double c, double* T, int i, int j) {{ {ty} r = {text}; }}"
+    src = f"void k(double a, double b, double c, double* T, int i, int j, double I) {{ {ty} r = {text}; }}"
     tree = _CP.parse(src)
     decl = tree.ext[0].body.block_items[0]
     return cfront._Conv().expr(decl.init)
@@ -424,7 +464,7 @@ def decide_equal(v1, v2, assume=()):
 
 def gcc_syntax_ok(expr_text, kind):
     ty = {"f": "double", "b": "_Bool", "i": "int"}[kind]
-    src = f"#include <math.h>\n#include <stdbool.h>\nvoid k(double a, double b, double c, double* T, int i, int j) {{ {ty} r = {expr_text}; (void)r; }}\n"
+    src = f"#include <math.h>\n#include <stdbool.h>\nvoid k(double a, double b, double c, double* T, int i, int j, double I) {{ {ty} r = {expr_text}; (void)r; }}\n"
     d = Path("/verif/.work/fmt")
     d.mkdir(parents=True, exist_ok=True)
     f = d / "syn.c"
@@ -506,6 +546,8 @@ def eval_lnodes(n, val):
     ln = L()
     ev = lambda x: eval_lnodes(x, val)
     if isinstance(n, ln.LiteralFloat):
+        if isinstance(n.value, complex):
+            return n.value.real + val["I"] * n.value.imag
         return float(n.value)
     if isinstance(n, ln.LiteralInt):
         return int(n.value)
@@ -563,7 +605,7 @@ def confirm_c_meaning(tree, text, kind, tries=40):
     d.mkdir(parents=True, exist_ok=True)
     h = hashlib.sha1(text.encode()).hexdigest()[:12]
     src = ("#include <math.h>\n#include <stdbool.h>\n"
-           f"double k(double a, double b, double c, double* T, int i, int j) {{ return (double)({text}); }}\n")
+           f"double k(double a, double b, double c, double* T, int i, int j, double I) {{ return (double)({text}); }}\n")
     cf, so = d / f"m{h}.c", d / f"m{h}.so"
     cf.write_text(src)
     r = subprocess.run(["gcc", "-std=c17", "-O0", "-fPIC", "-shared", str(cf), "-o", str(so), "-lm"], capture_output=True, text=True)
@@ -571,19 +613,20 @@ def confirm_c_meaning(tree, text, kind, tries=40):
         return None
     lib = ctypes.CDLL(str(so))
     lib.k.restype = ctypes.c_double
-    lib.k.argtypes = [ctypes.c_double] * 3 + [ctypes.POINTER(ctypes.c_double), ctypes.c_int, ctypes.c_int]
+    lib.k.argtypes = [ctypes.c_double] * 3 + [ctypes.POINTER(ctypes.c_double), ctypes.c_int, ctypes.c_int, ctypes.c_double]
     rng = random.Random(7)
     out = None
     for t in range(tries):
         val = {"a": rng.choice([0.3, 1.7, -2.2, 5.1, 0.6]) + t * 0.013, "b": rng.choice([1.1, -0.7, 3.3, 2.6]) - t * 0.007, "c": rng.choice([0.9, -1.3, 4.2]) + t * 0.003,
                "i": rng.randrange(0, 4), "j": rng.randrange(0, 4), "T": [1.25, -0.5, 3.75, 0.625, 2.5, -1.75, 0.2, 4.4, 1.9, -3.1, 0.7, 2.2, 5.5, -0.9, 1.3, 0.45]}
+        val["I"] = 0.7 + 0.01 * t  # the imaginary unit stands as a free real symbol (structure is what is replayed)
         try:
             want = eval_lnodes(tree, val)
         except (ZeroDivisionError, OverflowError):
             continue
         want = float(want)
         arr = (ctypes.c_double * len(val["T"]))(*val["T"])
-        got = lib.k(val["a"], val["b"], val["c"], arr, val["i"], val["j"])
+        got = lib.k(val["a"], val["b"], val["c"], arr, val["i"], val["j"], val["I"])
         if want != want or got != got or abs(want) == float("inf") or abs(got) == float("inf"):
             continue
         if abs(got - want) > 1e-9 * max(abs(got), abs(want), 1e-300):
@@ -608,9 +651,9 @@ def confirm_py_meaning(tree, text, tries=40):
         val = {"a": rng.choice([0.3, 1.7, -2.2, 5.1, 0.6]) + t * 0.013, "b": rng.choice([1.1, -0.7, 3.3, 2.6]) - t * 0.007, "c": rng.choice([0.9, -1.3, 4.2]) + t * 0.003,
                "i": rng.randrange(0, 4), "j": rng.randrange(0, 4), "T": [1.25, -0.5, 3.75, 0.625, 2.5, -1.75, 0.2, 4.4, 1.9, -3.1, 0.7, 2.2, 5.5, -0.9, 1.3, 0.45]}
         try:
-            want = float(eval_lnodes(tree, dict(val, _py=True)))
+            want = complex(eval_lnodes(tree, dict(val, _py=True, I=1j)))
             with np.errstate(all="ignore"):
-                got = float(eval(text, {"np": np, "math": math, **val}))
+                got = complex(eval(text, {"np": np, "math": math, **val}))
         except Exception:
             continue
         if want != want or got != got or abs(want) == float("inf") or abs(got) == float("inf"):
